@@ -26,7 +26,7 @@
    Structure results are appended after the loop and are never dropped; appending the same
    suffix to R and R' preserves ff_sub (lemma ff_sub_app in Proofs_C11.v). *)
 From Coq Require Import NArith List Bool.
-From SG Require Import Check.Results Check.BMap.
+From SG Require Import Check.Results Check.BMap Check.ExitCode Check.Ratchet Check.Baseline.
 Import ListNotations.
 Open Scope N_scope.
 
@@ -49,6 +49,21 @@ Definition ff_sub (ob : option baseline) (R R' : list result) : Prop := ff_sub_g
    collect returns R itself whatever the number of workers *)
 Definition loop_results (fail_fast : bool) (ob : option baseline) (R R' : list result) : Prop :=
   if fail_fast then ff_sub ob R R' else R' = R.
+
+(* runner.rs: fail_fast = (--fail-fast || [check] fail_fast) && args.update_baseline.is_none().
+   A run that updates the baseline evaluates everything (repair of D56): the new baseline is
+   built from the results of the run, so a truncated list would drop the entries of the files
+   the short-circuit skipped. [f_fail_fast] is the first conjunct. *)
+Definition effective_fail_fast (fl : flags) : bool :=
+  f_fail_fast fl && match f_update fl with Some _ => false | None => true end.
+
+(* what the file loop of a run with flags [fl] hands to check_step, R being the full list *)
+Definition run_loop (fl : flags) (ob : option baseline) (R R' : list result) : Prop :=
+  loop_results (effective_fail_fast fl) ob R R'.
+
+(* update flags with fail-fast requested as well *)
+Definition update_flags_ff (m : umode) (with_existing ff : bool) : flags :=
+  mkFlags with_existing (Some m) None None false false ff.
 
 (* one worker, list order *)
 Fixpoint ff_seq_gen (trigger : result -> bool) (R : list result) : list result :=
